@@ -415,6 +415,9 @@ def actor_case(res: Result, spec, idx):
                        and t.name[6:] not in ids]
             if not zombies and all(
                     a.status != "uninitialized" and not getattr(a, "_is_processing", False)
+                    # (start() sets status before it raises the processing flag and enters the
+                    #  initial states: a running child without a configuration is still starting)
+                    and (a.status != "running" or len(getattr(a, "_active_state_nodes", ())) > 0)
                     and not len(getattr(a, "_event_queue", ())) for a in kids):
                 return
             time.sleep(0.002)
